@@ -5,6 +5,8 @@
 (* last) over a class-representative scalar alphabet.  Items are scalar    *)
 (* values (for a UTF-16 source also a lone surrogate, which reads as       *)
 (* U+FFFD).  Unconsumed items stay staged (the caller re-pushes them).     *)
+(* InvokeQueried issues the call with the capacity of Layer I's            *)
+(* max_buffer_length_* formula for the staged units (C07).                 *)
 (***************************************************************************)
 EXTENDS ImplEncoder, TLCExt
 
@@ -35,7 +37,7 @@ Stage(x) ==
   /\ staged' = Append(staged, x)
   /\ UNCHANGED <<st, m, eos, hist>>
 
-Invoke(cap, last) ==
+Invoke(cap, last, q) ==
   /\ Live /\ (eos => last)
   /\ LET units == ItemUnits(staged)
          S == SrcScalars(Source, units).s
@@ -43,7 +45,7 @@ Invoke(cap, last) ==
          ev == [ev |-> "E", src |-> units, cap |-> cap, last |-> last, res |-> r.res, um |-> r.um, read |-> r.read,
                 written |-> r.written, out |-> r.out, had |-> r.had,
                 pending |-> (OutputEncoding(EncName) = "ISO-2022-JP" /\ r.st # "ascii"),
-                q |-> FALSE, alt |-> <<>>, guard |-> TRUE]
+                q |-> q, alt |-> <<>>, guard |-> TRUE]
          nItems == UnitsToCount(S, r.read, 1, 0)
      IN  /\ st' = r.st
          /\ m' = EMonEncode(m, ev)
@@ -51,13 +53,20 @@ Invoke(cap, last) ==
          /\ eos' = (eos \/ last)
          /\ hist' = Append(hist, ev)
 
-Next == (\E x \in Alphabet : Stage(x)) \/ (\E cap \in Caps, last \in BOOLEAN : Invoke(cap, last))
+\* C07: the capacity the model's max_buffer_length_* formula gives for the staged units in the current state
+InvokeQueried(last) == Invoke(EncoderMax(OutputEncoding(EncName), Len(ItemUnits(staged)), Repl), last, TRUE)
+
+Next == \/ \E x \in Alphabet : Stage(x)
+        \/ \E cap \in Caps, last \in BOOLEAN : Invoke(cap, last, FALSE)
+        \/ \E last \in BOOLEAN : InvokeQueried(last)
 
 Spec == Init /\ [][Next]_vars
 
 NoViolation == m.viol = <<>>
 
-View == <<st, m.se, m.avail, m.pend, m.eos, m.done, m.desync, m.ist, m.rd, m.hadU, staged, eos>>
+\* a state with a recorded violation is never identified with one without (TLC evaluates invariants on new views only);
+\* the state after a queried call is kept apart so that one behaviour ending in it is exported for replay
+View == <<st, m.se, m.avail, m.pend, m.eos, m.done, m.desync, m.ist, m.rd, m.hadU, staged, eos, m.viol # <<>>, hist # <<>> /\ hist[Len(hist)].q>>
 
 Export == hist = <<>> \/ PrintT(<<"HIST", ToJson([new |-> NewEv, calls |-> hist])>>)
 =============================================================================
